@@ -1441,6 +1441,7 @@ def run(ck):
     pure(ck)
     pure_f32(ck)
     pure_sizing(ck)
+    run_life(ck)
     exes = {"uo": build("uo"), "sl": build("sl")}
     stats = {"scenarios": 0, "runs": 0, "events": 0, "skipped_loads": 0, "unmodelled_accesses": 0, "orders_bad": set(), "cas_failures": 0,
              "dfs_runs": 0, "families": {}, "observations": 0, "observation_samples": [],
@@ -1531,8 +1532,49 @@ def run(ck):
         report_failure(ck, exes, sc, r, "monitor")
 
 
+LIFE_KINDS = ["oset", "omset", "omap", "ommap", "uset", "umset", "umap", "ummap"]
+LIFE_OPS = ["copyctor", "movector", "copyassign", "moveassign-eq", "moveassign-neq", "moveassign-pocma", "swap", "swap-pocma", "clear-reuse"]
+LIFE_FLAGS = ["-O1", "-g", "-fsanitize=address,undefined", "-fno-sanitize-recover=all", "-pthread"]
+
+
+def run_life(ck):
+    """life-cycle operations with STATEFUL functors and allocators (harness/c12/life.cpp): after copy / move construction and assignment (equal,
+    unequal non-propagating, propagating allocators), swap and clear the result must use the functors it reports: order, uniqueness, contents,
+    find, failed re-insert, then concurrent inserts of present and absent keys"""
+    from concurrent.futures import ThreadPoolExecutor
+    exe = cxx_build("C12", "life", ["harness/c12/life.cpp", STUBS], flags=LIFE_FLAGS)
+    jobs = [(k, op, ck.seed * 2 + i) for k in LIFE_KINDS for op in LIFE_OPS for i in range(1 if ck.tier == "quick" else 6)]
+
+    def one(j):
+        rc, out, err = sh([exe, j[0], j[1], str(j[2])], timeout=900)
+        return j, rc, out, err
+    bad = []
+    with ThreadPoolExecutor(max_workers=common.NCPU) as ex:
+        for j, rc, out, err in ex.map(one, jobs):
+            v = [l for l in out.split("\n") if l.startswith("VIOLATION")]
+            if rc != 0 and not v:
+                v = ["VIOLATION crash rc=%d %s" % (rc, (err or out)[-400:].replace("\n", " | "))]
+            ck.count(1, ("life", j[0], j[1], bool(v)))
+            if v:
+                bad.append((j, v))
+    ck.traces_validated += len(jobs)
+    ck.extra["lifecycle_runs"] = {"runs": len(jobs), "kinds": LIFE_KINDS, "operations": LIFE_OPS}
+    ck.oblige("monitor:life-cycle operations with stateful comparator / hasher / key_equal / allocator (copy, move, assignment with equal, unequal and "
+              "propagating allocators, swap, clear): the result uses the functors it reports — iteration in comparator order, no two equivalent keys in a "
+              "unique container, contents = the source's, find / failed re-insert, then exactly one success per absent key under concurrent inserts",
+              "correspondence", not bad, [(j, v[:2]) for j, v in bad][:2])
+    for j, v in bad[:1]:
+        ck.counterexample("life:%s:%s:%s" % (j[0], j[1], re.sub(r"[^a-z]+", "-", v[0].lower())[:60]), "%s %s seed %d: %s" % (j[0], j[1], j[2], v[0]),
+                          {"engine": "E-REAL", "harness": "life", "args": [j[0], j[1], str(j[2])], "observed": v[:6], "expect": "no-violation"})
+
+
 def replay(ck, obj):
     r = obj["replay"]
+    if r.get("harness") == "life":
+        exe = cxx_build("C12", "life", ["harness/c12/life.cpp", STUBS], flags=LIFE_FLAGS)
+        rc, out, err = sh([exe] + list(r["args"]), timeout=900)
+        print(out[-2000:] + err[-500:])
+        return 1 if (rc != 0 or "VIOLATION" in out) else 0
     if r.get("engine") == "E-PURE-SZ":
         exe = cxx_build("C12", "sz", ["harness/c12/sz.cpp", STUBS], flags=SZ_FLAGS)
         rc, out, err = sh([exe], input=r["input"] + "\n", timeout=120)
